@@ -226,6 +226,20 @@ PROPS = {
              "year..second getters against chrono; NaT -> NaT / None everywhere; every + - neg * duration_trunc on DateTime (4 units), "
              "TimeDelta and Time with a NaT operand must give NaT. distinct = (unit pair, sign, magnitude) / (unit, year, month) / NaT operation",
     ),
+    "C17": dict(
+        bin="c17",
+        quick=NATIVE_QR, thorough=NATIVE_T,
+        floors={"ok.add_then_sub": 1000, "ok.difference_added_back": 1000, "ok.add_months": 500, "ok.td_associative": 500,
+                "ok.td_scale_distributes_over_add": 500, "ok.time_components": 500, "ok.time_chrono_roundtrip": 500,
+                "ok.time_shift_exact": 500, "ok.trunc_month_free": 300, "ok.trunc_months": 500, "ok.nat_operands": 100},
+        technique="runtime monitoring: law checkers over generated operations with chrono / i128 arithmetic as reference model",
+        rule="random date-times 1678..2262 in all four units with sub-second parts; month-free durations from every combination of "
+             "ns..w terms and signs (multiples of the unit's resolution); month counts -1200..1200; times of day over 0..86400 s with "
+             "ms / us / ns parts. Laws: (t+d)-d = t, (t-d)+d = t, b+(a-b) = a, t+months = chrono checked_add_months, TimeDelta group "
+             "laws and scaling distributivity, Time constructors <-> Timelike getters <-> NaiveTime, Time +- d exact and invertible, "
+             "duration_trunc(d) = floor to the greatest multiple of d (i128 on the epoch count), duration_trunc(k months, k | 12) = first "
+             "instant of the month / quarter / half-year / year, NaT operands. distinct = (law, unit, sign / parameter class)",
+    ),
 }
 
 for _k in list(PROPS):
